@@ -5,21 +5,19 @@
    Full statement (DESIGN: recover_is_prefix): for every history and every crash point i,
      recover (after_effects i (run history)) = state after a prefix of the operations, the prefix containing
      everything completed before the last successful sync / db creation / checkpoint.
-   It is FALSE of the faithful model when a file grows in mid-operation (C04_growth_tears_refuted, known
-   finding, reproduced on the real code).  What is proved for histories without growth is the part that
-   carries the crash-safety argument, over ANY kernel state whose log is a (cut of a) well-formed log:
-     - C05_replay_cut_is_savepoint_state: recovery yields the state at the last savepoint of the log, and
-       savepoints are only written between operations (exclusive lock), i.e. a prefix state;
-     - C04_recover_is_prefix_partial: the same when the main file already holds any prefix of the records to
-       redo - the situation after a kill inside a checkpoint's replay (the log is truncated only after all
-       records are applied and msync'ed) or inside an earlier recovery;
-     - C04_crash_in_recovery: every crash point of the recovery run itself (second-level crash points).
-   Missing for the unconditional recover_is_prefix: the invariant that the log written by Proto.run is
-   `wf_log`/`crc_ok` and ends with a savepoint after every sync (checked on every real log by C05.py's `chk`,
-   not proved), and COPY records (not idempotent under redo; iwkv never logs them). *)
+   PROVED over Proto.run for every history of operations, syncs and checkpoints whose operations make no _onresize
+   call (`no_growth_in_ops`; with one the statement is false: C04_growth_tears_refuted, known finding) and no
+   _oncopy call (`no_copy_in_ops`; with one it is false as well: C04_copy_redo_refuted - latent, iwkv/iwfsm never
+   log a COPY record): C04_recover_is_prefix, C04_crash_inside_op, and the invariant behind them that the log
+   Proto.run writes is wf_log / crc_ok / without reset marks (C04_run_log_wf - formerly only checked on real logs).
+   Other hypotheses, all decidable and satisfied by C04_recover_is_prefix_ex: operations consist of listener calls
+   (savepoints happen between operations: the store's exclusive lock), arguments lie in their C types, the log
+   buffer is smaller than 4 GiB - 28 (WBSEP.len is a uint32), every store lies inside the file.
+   The older statements over any kernel state whose log is a cut of a well-formed log stay:
+     - C04_recover_is_prefix_partial, C04_crash_in_recovery (second-level crash points), C04_redo_idempotent. *)
 Require Import ZArith List Bool. Require Import IW.Lib.CInt IW.Gen.Facts.
 Require Import IW.WAL.Rec IW.WAL.Rec_proofs IW.WAL.Scan IW.WAL.Scan_proofs IW.WAL.Replay IW.WAL.Replay_proofs
-  IW.WAL.Proto IW.WAL.Proto_proofs.
+  IW.WAL.Proto IW.WAL.Proto_proofs IW.WAL.Hist IW.WAL.Hist_proofs.
 Import ListNotations. Local Open Scope Z_scope.
 
 Definition ex_log : list rec :=
@@ -108,3 +106,89 @@ Theorem C04_growth_tears_refuted :
             m <> gt_state0 /\ m <> gt_state1 /\ m <> gt_state2 /\ nth 1 m 0 = 2 /\ nth 2 m 0 = 0.
 Proof. exact growth_tears_refuted. Qed.
 Print Assumptions C04_growth_tears_refuted.
+
+(* ---- recover_is_prefix over Proto.run, unconditional for histories without growth (and COPY) inside an operation.
+   i = any crash point (number of effects of the run that reached the kernel), n = done_items .. i = items all of whose
+   effects are among them.  The next open succeeds and yields the state after the first k items, where k is not
+   smaller than the last sync/checkpoint among those n items and not larger than n + 1. *)
+Theorem C04_recover_is_prefix : forall c ccrc D0 h Mf (i : nat),
+  cfg_ok c = true ->
+  hist_shape h = true -> no_growth_in_ops h = true -> no_copy_in_ops h = true -> hist_range h = true ->
+  apply_ops D0 (hist_ops h) = Some Mf ->
+  exists (k : nat) M ops',
+    (sync_floor (firstn (done_items c (fresh D0) h i) h) <= k <= Nat.min (S (done_items c (fresh D0) h i)) (length h))%nat /\
+    (let (log, disk) := after_effects [] D0 (firstn i (snd (run c (fresh D0) (flat h)))) in
+     recover ccrc 1 0 log disk) = (VOk, M, ops') /\
+    state_after D0 h k = Some M.
+Proof. exact (fun c ccrc D0 h Mf i => recover_is_prefix c ccrc D0 h Mf i eq_refl). Qed.
+Print Assumptions C04_recover_is_prefix.
+
+(* a history satisfying every hypothesis: two-store operation, sync, operation with an _onsynced call, checkpoint,
+   operation, savepoint without fsync; checksums on.  13 effects; (items done, floor, recovered bytes 0..5) at every
+   crash point - e.g. at i = 5..11 (inside the checkpoint, savepoint record on disk) the state after 4 items. *)
+Definition hx_cfg : pcfg := mkC 4084 true.
+Definition hx_D0 : bytes := repeat 0 16%nat.
+Definition hx_h : list hitem :=
+  [HOp [VWrite 0 [1]; VSet 4 7 2]; HSync 5 true; HOp [VWrite 1 [2]; VSynced]; HCkpt 9; HOp [VWrite 2 [3]]; HSync 11 false].
+Definition hx_crash (i : nat) : Z * Z * (verdict * bytes) :=
+  let n := done_items hx_cfg (fresh hx_D0) hx_h i in
+  let (log, disk) := after_effects [] hx_D0 (firstn i (snd (run hx_cfg (fresh hx_D0) (flat hx_h)))) in
+  let '(v, m, _) := recover false 1 0 log disk in (Z.of_nat n, Z.of_nat (sync_floor (firstn n hx_h)), (v, firstn 6 m)).
+Example C04_recover_is_prefix_ex :
+  cfg_ok hx_cfg = true /\ hist_shape hx_h = true /\ no_growth_in_ops hx_h = true /\ no_copy_in_ops hx_h = true /\
+  hist_range hx_h = true /\ option_map (firstn 6) (apply_ops hx_D0 (hist_ops hx_h)) = Some [1;2;3;0;7;7] /\
+  length (snd (run hx_cfg (fresh hx_D0) (flat hx_h))) = 13%nat /\
+  map hx_crash [0; 1; 2; 4; 5; 11; 12; 13]%nat =
+    [(1, 0, (VOk, [0;0;0;0;0;0])); (1, 0, (VOk, [1;0;0;0;7;7])); (2, 2, (VOk, [1;0;0;0;7;7])); (3, 2, (VOk, [1;0;0;0;7;7]));
+     (3, 2, (VOk, [1;2;0;0;7;7])); (3, 2, (VOk, [1;2;0;0;7;7])); (5, 4, (VOk, [1;2;0;0;7;7])); (6, 6, (VOk, [1;2;3;0;7;7]))] /\
+  map (fun k => option_map (firstn 6) (state_after hx_D0 hx_h k)) [0; 2; 4; 6]%nat =
+    [Some [0;0;0;0;0;0]; Some [1;0;0;0;7;7]; Some [1;2;0;0;7;7]; Some [1;2;3;0;7;7]].
+Proof. vm_compute. repeat split; reflexivity. Qed.
+
+(* the operation in flight is invisible: a kill anywhere inside an operation (j = number of its effects that are
+   out, any j) recovers exactly the state at the last completed sync/checkpoint before it *)
+Theorem C04_crash_inside_op : forall c ccrc D0 hd evs tl Mf (j : nat),
+  cfg_ok c = true ->
+  let h := hd ++ HOp evs :: tl in
+  hist_shape h = true -> no_growth_in_ops h = true -> no_copy_in_ops h = true -> hist_range h = true ->
+  apply_ops D0 (hist_ops h) = Some Mf ->
+  let (s1, fx1) := run c (fresh D0) (flat hd) in
+  let (s2, fx2) := run c s1 evs in
+  exists M ops',
+    (let (log, disk) := after_effects [] D0 (fx1 ++ firstn j fx2) in recover ccrc 1 0 log disk) = (VOk, M, ops') /\
+    state_after D0 h (sync_floor hd) = Some M.
+Proof. exact (fun c ccrc D0 hd evs tl Mf j => crash_inside_op c ccrc D0 hd evs tl Mf j eq_refl). Qed.
+Print Assumptions C04_crash_inside_op.
+Example C04_crash_inside_op_ex :   (* 1500-byte store with a 64-byte log buffer: the payload bypasses the buffer, 2 effects *)
+  let c := mkC 64 true in let D0 := repeat 0 2048%nat in
+  let hd := [HOp [VWrite 0 [9]]; HSync 1 true] in let evs := [VSet 1 5 3; VWrite 8 (repeat 7 1500%nat)] in
+  length (snd (run c (fst (run c (fresh D0) (flat hd))) evs)) = 2%nat /\
+  map (fun j => let (log, disk) := after_effects [] D0 (snd (run c (fresh D0) (flat hd)) ++ firstn j (snd (run c (fst (run c (fresh D0) (flat hd))) evs))) in
+                let '(v, m, _) := recover true 1 0 log disk in (v, firstn 3 m, nth 8 m 0)) [0; 1; 2]%nat =
+    [(VOk, [9;0;0], 0); (VOk, [9;0;0], 0); (VOk, [9;0;0], 0)].
+Proof. vm_compute. split; reflexivity. Qed.
+
+(* the log Proto.run writes has the shape the cut theorems of C05 assume (was: checked on real logs only) *)
+Theorem C04_run_log_wf : forall c D0 h Mf s fx,
+  cfg_ok c = true ->
+  hist_shape h = true -> no_growth_in_ops h = true -> no_copy_in_ops h = true -> hist_range h = true ->
+  apply_ops D0 (hist_ops h) = Some Mf -> run c (fresh D0) (flat h) = (s, fx) ->
+  exists R, p_log s = encode R /\ wf_log R = true /\ crc_ok R = true /\ no_reset R = true /\
+            after_effects [] D0 fx = (p_log s, p_disk s).
+Proof. exact (fun c D0 h Mf s fx => run_log_wf c D0 h Mf s fx eq_refl). Qed.
+Print Assumptions C04_run_log_wf.
+Example C04_run_log_wf_ex :
+  let s := fst (run hx_cfg (fresh hx_D0) (flat hx_h)) in
+  option_map (fun R => (length R, wf_log R, crc_full R, no_reset R, sp_offsets R 0)) (parse (p_log s)) =
+    Some (3%nat, true, true, true, [33]) /\ p_buf s = [].
+Proof. vm_compute. split; reflexivity. Qed.
+
+(* the hypothesis no_copy_in_ops is needed: one _oncopy call, checkpoint, kill after the record was applied and before
+   the log truncation: recovery re-executes the move on the moved bytes (1 1 1 instead of 1 2 3 or 1 1 2) *)
+Theorem C04_copy_redo_refuted :
+  hist_shape cp_h = true /\ no_growth_in_ops cp_h = true /\ hist_range cp_h = true /\ no_copy_in_ops cp_h = false /\
+  option_map (firstn 3) (state_after cp_D0 cp_h 0) = Some [1;2;3] /\
+  option_map (firstn 3) (state_after cp_D0 cp_h 2) = Some [1;1;2] /\
+  cp_crash 3 = (VOk, [1;1;1]).
+Proof. exact copy_redo_refuted. Qed.
+Print Assumptions C04_copy_redo_refuted.
